@@ -222,7 +222,13 @@ def decorate(tree, d):
 
 EDITS = ["update_file_data", "update_file_metadata", "handle_update", "merge", "append_hive", "append_simple", "remove_row_groups",
          # wave 4: a handle that OBSERVED (read-only API) and / or was INPUT of a multi-file open, then re-serialises its metadata
-         "observe_write_common", "observe_pickle", "observe_handle_append", "input_of_many"]
+         "observe_write_common", "observe_pickle", "observe_handle_append", "input_of_many",
+         # wave 6: REPEATED serialisations of one handle with handle-level edits in between
+         "repeated_serialise"]
+
+SERIALISERS = ["pickle", "deepcopy", "_write_common_metadata", "copy"]
+HANDLE_EDITS = ["update_custom_metadata", "_sort_part_names", "fmd.created_by=", "fmd.key_value_metadata.append", "remove_row_groups",
+                "write_row_groups", "statistics"]
 
 # read-only API of a handle: whatever is called, the metadata the handle later re-serialises must be the metadata it read
 OBSERVERS = ["statistics", "sorted_partitioned_columns", "to_pandas", "filters", "row_filter", "head", "dtypes", "info", "count",
@@ -298,7 +304,11 @@ def gen_case(rng):
         decor["stats_v2_only"] = True       # statistics with min_value / max_value only: what parquet-mr >= 1.10 and arrow write
     return {"edit": edit, "decor": decor, "update": upd, "nrows": rng.choice([6, 30]),
             "cat": rng.random() < 0.5, "compression": rng.choice([None, "SNAPPY"]), "observe": obs,
-            "many_op": rng.choice(["ParquetFile([...])", "merge([...])"])}
+            "many_op": rng.choice(["ParquetFile([...])", "merge([...])"]),
+            # the first serialisation is mostly one that a handle may cache (pickle / deepcopy); edits that do not rebuild the handle's
+            # derived attributes (no _set_attrs) are drawn twice as often as those that do
+            "rounds": [[rng.choice(SERIALISERS[:2] if (j == 0 and rng.random() < 0.7) else SERIALISERS),
+                        rng.choice(HANDLE_EDITS[:4] * 2 + HANDLE_EDITS[4:])] for j in range(rng.choice([2, 3, 4]))]}
 
 
 def _frame(n, off=0, cat=False):
@@ -494,6 +504,48 @@ def run_case(case, scratch, pq, tag):
                 return [err], info
             compare(before[path], after, problems, rgs=("append", 1), num_rows="changed", pandas_json=True)
             ParquetFile(root).to_pandas()
+        elif edit == "repeated_serialise":
+            import copy as _copy
+            import pickle
+            from fastparquet import parquet_thrift
+            pf = ParquetFile(root)
+            for rno, (ser, ed) in enumerate(case.get("rounds", [["pickle", "update_custom_metadata"], ["pickle", "statistics"]]) + [["pickle", None], ["deepcopy", None]]):
+                # what a serialisation of the handle yields must be the metadata the handle HOLDS now
+                held, err = tree_of_bytes(pq, bytes(pf.fmd.to_bytes()), "the handle's metadata")
+                if err:
+                    return [err], info
+                if ser == "pickle":
+                    got = bytes(pickle.loads(pickle.dumps(pf)).fmd.to_bytes())
+                elif ser == "deepcopy":
+                    got = bytes(_copy.deepcopy(pf).fmd.to_bytes())
+                elif ser == "copy":
+                    got = bytes(_copy.copy(pf).fmd.to_bytes())
+                else:
+                    pf._write_common_metadata()
+                    held, err = tree_of_bytes(pq, bytes(pf.fmd.to_bytes()), "the handle's metadata")      # consolidate_categories may re-dump 'pandas'
+                    got = split_footer(open(path, "rb").read(), True)[1]
+                after, err = tree_of_bytes(pq, got, "round %d: what %s produced" % (rno, ser))
+                if err:
+                    return [err], info
+                dd = first_diff(norm(held), norm(after))
+                if dd:
+                    problems.append("round %d: %s of the handle does not give the metadata it holds (after the edits %r): field path %r: %s" % (
+                        rno, ser, [r[1] for r in case.get("rounds", [])[:rno]], list(dd[0]), dd[1]))
+                    break
+                if ed == "update_custom_metadata":
+                    update_custom_metadata(pf, {"round%d" % rno: "v%d" % rno, "other": None if rno % 2 else "again"})
+                elif ed == "_sort_part_names":
+                    pf._sort_part_names()
+                elif ed == "fmd.created_by=":
+                    pf.fmd.created_by = b"edited in round %d" % rno       # bytes, as a parsed footer holds it
+                elif ed == "fmd.key_value_metadata.append":
+                    pf.fmd.key_value_metadata = list(pf.fmd.key_value_metadata or []) + [parquet_thrift.KeyValue(key=b"direct%d" % rno, value=b"x")]
+                elif ed == "remove_row_groups" and len(pf.row_groups) > 1:
+                    pf.remove_row_groups(pf.row_groups[0])
+                elif ed == "write_row_groups":
+                    pf.write_row_groups(_frame(5, n + 10 * rno, case["cat"]), compression=case["compression"])
+                elif ed == "statistics":
+                    pf.statistics
         elif edit == "input_of_many":
             # a second dataset of the same shape next to the first; both handles are INPUT of a multi-file open / merge
             root2 = root + "-b"
